@@ -149,6 +149,110 @@ Lossless(a, b) ==
 (* the integer a decimal denotes for an integer target (before the range check)               *)
 DecIntValue(a, v) == IF a.s >= 0 THEN TruncDivPow10(v, a.s) ELSE MulPow10(v, -a.s)
 
+(* ------------------------- text -> value (lexical) ------------------------ *)
+(* A text is the sequence of its Unicode code points.  The languages are      *)
+(* pinned from arrow-cast/src/parse.rs and cast/{string,decimal}.rs:          *)
+(*  integers, durations (parser_primitive!): optional ASCII whitespace on     *)
+(*    both sides, an optional sign '+' / '-', one or more decimal digits;     *)
+(*    nothing else (in particular no '.', no exponent, no inner blank)        *)
+(*  decimals (parse_string_to_decimal_native): optional Unicode whitespace    *)
+(*    on both sides, an optional sign, digits with at most one '.', at least  *)
+(*    one digit; fractional digits beyond the scale round half away from 0    *)
+(*  booleans (cast_single_string_to_boolean): ASCII case-insensitive, Unicode *)
+(*    whitespace trimmed: true yes on 1 / false no off 0 and their prefixes   *)
+(*  times of day (string_to_time): H:MM | HH:MM | H:MM:SS | HH:MM:SS[.f+]     *)
+(*    with an optional suffix " AM" / " PM" (any case), no surrounding        *)
+(*    whitespace; otherwise a plain Rust integer literal (sign? digits)       *)
+IsDigit(c) == c \in 48..57
+AsciiWS == {9, 10, 12, 13, 32}                                  \* u8::is_ascii_whitespace
+UnicodeWS == {9, 10, 11, 12, 13, 32, 133, 160, 5760, 8232, 8233, 8239, 8287, 12288} \cup 8192..8202   \* char::is_whitespace
+MinOf(S) == CHOOSE x \in S : \A y \in S : x <= y
+MaxOf(S) == CHOOSE x \in S : \A y \in S : x >= y
+TrimBoth(s, W) ==
+  LET keep == {i \in 1..Len(s) : s[i] \notin W}
+  IN IF keep = {} THEN <<>> ELSE SubSeq(s, MinOf(keep), MaxOf(keep))
+AllDigits(s) == \A i \in 1..Len(s) : IsDigit(s[i])
+RECURSIVE DigitsMag(_, _, _)
+DigitsMag(s, i, acc) ==          \* the number written by the digits s[i..]
+  IF i > Len(s) THEN acc ELSE DigitsMag(s, i + 1, Add(MulSmall(acc, 10), FromInt(s[i] - 48)))
+DigitsVal(s) == DigitsMag(s, 1, Zero)
+HasSign(t) == t # <<>> /\ t[1] \in {43, 45}
+Unsigned(t) == IF HasSign(t) THEN Tail(t) ELSE t
+Signed(t, mag) == IF t # <<>> /\ t[1] = 45 THEN Neg(mag) ELSE mag
+
+(* sign? digit+ : [ok, v]                                                     *)
+PlainInt(t) ==
+  LET body == Unsigned(t) IN
+  IF body # <<>> /\ AllDigits(body) THEN Val(Signed(t, DigitsVal(body))) ELSE Fail
+
+IntText(s) == PlainInt(TrimBoth(s, AsciiWS))
+
+DecText(s, scale) ==
+  LET t == TrimBoth(s, UnicodeWS)
+      body == Unsigned(t)
+      points == {i \in 1..Len(body) : body[i] = 46}
+      digits == SelectSeq(body, IsDigit)
+      okForm == /\ \A i \in 1..Len(body) : IsDigit(body[i]) \/ body[i] = 46
+                /\ points = {} \/ (\E i \in points : points = {i})
+                /\ digits # <<>>
+  IN IF ~okForm THEN Fail
+     ELSE LET f == IF points = {} THEN 0 ELSE Len(body) - MinOf(points)      \* fractional digits
+              n == DigitsVal(digits)
+              v == IF f <= scale THEN MulPow10(n, scale - f) ELSE RoundDivPow10(n, f - scale)
+          IN Val(Signed(t, v))
+
+Lower(c) == IF c \in 65..90 THEN c + 32 ELSE c
+TrueWords == {<<116>>, <<116, 114>>, <<116, 114, 117>>, <<116, 114, 117, 101>>, <<121>>, <<121, 101>>,
+              <<121, 101, 115>>, <<111, 110>>, <<49>>}
+FalseWords == {<<102>>, <<102, 97>>, <<102, 97, 108>>, <<102, 97, 108, 115>>, <<102, 97, 108, 115, 101>>,
+               <<110>>, <<110, 111>>, <<111, 102>>, <<111, 102, 102>>, <<48>>}
+BoolText(s) ==
+  LET t == TrimBoth([i \in 1..Len(s) |-> Lower(s[i])], UnicodeWS) IN
+  IF t \in TrueWords THEN Val(One) ELSE IF t \in FalseWords THEN Val(Zero) ELSE Fail
+
+(* nanoseconds since midnight; a second of 60 is the leap second 59 + 1 s      *)
+D2(s, i) == (s[i] - 48) * 10 + (s[i + 1] - 48)
+TimeNanos(s) ==
+  LET n0 == Len(s)
+      suffix == IF n0 >= 3 THEN <<s[n0 - 2], Lower(s[n0 - 1]), Lower(s[n0])>> ELSE <<>>
+      am == suffix = <<32, 97, 109>>
+      pm == suffix = <<32, 112, 109>>
+      t == IF am \/ pm THEN SubSeq(s, 1, n0 - 3) ELSE s
+      n == Len(t)
+      hl == IF n >= 4 /\ t[2] = 58 THEN 1 ELSE IF n >= 4 /\ t[3] = 58 THEN 2 ELSE 0     \* hour digits
+      r == IF hl = 0 THEN <<>> ELSE SubSeq(t, hl + 2, n)                                 \* after "H:" / "HH:"
+      rn == Len(r)
+      shape == /\ n0 >= 4 /\ hl > 0 /\ rn >= 2
+               /\ \A i \in 1..hl : IsDigit(t[i])
+               /\ IsDigit(r[1]) /\ IsDigit(r[2])
+               /\ \/ rn = 2
+                  \/ /\ rn >= 5 /\ r[3] = 58 /\ IsDigit(r[4]) /\ IsDigit(r[5])
+                     /\ \/ rn = 5
+                        \/ rn >= 7 /\ r[6] = 46 /\ AllDigits(SubSeq(r, 7, rn))
+  IN IF ~shape THEN Fail
+     ELSE LET h0 == IF hl = 1 THEN t[1] - 48 ELSE D2(t, 1)
+              mi == D2(r, 1)
+              se == IF rn >= 5 THEN D2(r, 4) ELSE 0
+              fr == IF rn >= 7 THEN SubSeq(r, 7, Min2(rn, 15)) ELSE <<>>                 \* at most 9 digits count
+              frn == IF fr = <<>> THEN Zero ELSE MulPow10(DigitsVal(fr), 9 - Len(fr))
+              hok == IF am \/ pm THEN h0 \in 1..12 ELSE h0 <= 23
+              h == IF am THEN (IF h0 = 12 THEN 0 ELSE h0) ELSE IF pm THEN (IF h0 = 12 THEN 12 ELSE h0 + 12) ELSE h0
+          IN IF hok /\ mi <= 59 /\ se <= 60
+             THEN Val(Add(MulPow10(FromInt(h * 3600 + mi * 60 + se), 9), frn))
+             ELSE Fail
+TimeText(b, s) ==
+  LET r == TimeNanos(s) IN
+  IF r.ok THEN Val(TruncDivPow10(r.v, 9 - PerSecExp(b.u)))
+  ELSE LET p == PlainInt(s) IN IF p.ok THEN InRange(b.w, 1, p.v) ELSE Fail
+
+(* the value of type b a text denotes, Fail = not in the language or not       *)
+(* representable                                                               *)
+TextVal(b, s) ==
+  CASE b.f \in {"int", "dur"} -> LET r == IntText(s) IN IF r.ok THEN InRange(b.w, b.sg, r.v) ELSE Fail
+    [] b.f = "dec" -> LET r == DecText(s, b.s) IN IF r.ok /\ FitsPrecision(r.v, b.p) THEN r ELSE Fail
+    [] b.f = "bool" -> BoolText(s)
+    [] b.f \in {"time32", "time64"} -> TimeText(b, s)
+
 (* ------------------------------ array level ------------------------------ *)
 (* strict mode: an error iff some valid row is not representable             *)
 StrictErr(a, b, vals, valid) ==
